@@ -260,7 +260,8 @@ class FileModel:
                         node.end_col_offset - quote if not multiline else node.col_offset + prefix + quote + len(name.encode()))
         u = {"name": name, "kind": kind, "owner": owner, **sp,
              "plain_string": simple and prefix == 0 and quote == 1 and not multiline,
-             "exact_span": exact}
+             "exact_span": exact, "node_start_b": node.col_offset, "node_end_b": node.end_col_offset,
+             "node_end_line": node.end_lineno, "string": True}
         self.usages.append(u)
 
     # ---- walk ----------------------------------------------------------------------
